@@ -251,6 +251,19 @@ pub fn cases(parser: &str, quick: bool) -> Vec<(String, Vec<u8>)> {
                 v.push(("nesting".into(), format!("server {{\n{}", "a {\n".repeat(d)).into_bytes()));
                 v.push(("nesting".into(), format!("server {{\n{}{}}}", "a {\n".repeat(d), "}\n".repeat(d)).into_bytes()));
                 v.push(("nesting".into(), format!("server {{\n{}", "route /a {\n".repeat(d)).into_bytes()));
+                v.push(("nesting".into(), format!("server {{\n{}", "host x {\n".repeat(d)).into_bytes()));
+                v.push(("nesting".into(), format!("server {{\n{}", "host \"x\" {\nroute /a {\na {\n".repeat(d / 3 + 1)).into_bytes()));
+            }
+            // a file that includes itself, and two files that include each other
+            {
+                let dir = crate::report::root().join(".target").join("scratch");
+                let _ = std::fs::create_dir_all(&dir);
+                let (a, b, c) = (dir.join("c03-self.conf"), dir.join("c03-ping.conf"), dir.join("c03-pong.conf"));
+                let _ = std::fs::write(&a, format!("include \"{}\"\n", a.display()));
+                let _ = std::fs::write(&b, format!("x {{\ninclude \"{}\"\n}}\n", c.display()));
+                let _ = std::fs::write(&c, format!("include \"{}\"\n", b.display()));
+                v.push(("include-cycle".into(), format!("server {{\n  include \"{}\"\n}}", a.display()).into_bytes()));
+                v.push(("include-cycle".into(), format!("server {{\n  include \"{}\"\n}}", b.display()).into_bytes()));
             }
             v.push(("long-line".into(), format!("server {{\n  k \"{}\"\n}}", "v".repeat(300_000)).into_bytes()));
         }
